@@ -277,6 +277,21 @@ def run(case):
                                   kind="file_changed", m=rd["m"]))
                     break
             nontrivial = nontrivial or got_data >= 3
+            if not crashed and not V:
+                # several lazy results alive on the handle at once, advanced alternately: still no write
+                gq = [rd for rd in case["reads"] if rd["m"] in ("all_features", "features_of_type", "children", "parents", "region")
+                      and not rd.get("region_feature")][:3]
+                if len(gq) >= 2:
+                    ri = call(n, {"op": "interleave", "h": "h", "queries": [{"m": q["m"], "args": q.get("args") or [], "kw": q.get("kw") or {}} for q in gq],
+                                  "schedule": [(i * 7 + j) % len(gq) for i, j in enumerate(range(12))]})
+                    st = call(n, {"op": "conn_state", "h": "h"})
+                    if file_digest(path) != d0:
+                        V.append(viol("C19.reads", "interleaved read-style iterations changed the database file", kind="file_changed", m="interleaved"))
+                    elif st["ok"] and st["in_transaction"]:
+                        V.append(viol("C19.reads", "after interleaved read-style iterations the handle is inside a transaction", kind="in_transaction",
+                                      m="interleaved"))
+                    elif ri["ok"]:
+                        probes["interleaved_reads"] = 1
             if not crashed:
                 if case["end"] == "drop":
                     call(n, {"op": "drop", "h": "h"})
